@@ -124,8 +124,26 @@ def native_runs(cdef, interp, seed, n_runs, inputs=None):
     while res["runs"] < n_runs and tries < n_runs * 6:
         tries += 1
         vc = NatVC(cdef, interp, rng, inputs=inputs)
+        import signal
+
+        def _too_long(signum, frame):
+            raise TimeoutError("bounded case exceeded its time limit")
+        old_handler = signal.signal(signal.SIGALRM, _too_long)
+        signal.alarm(int(os.environ.get("VERIF_CASE_TIMEOUT", "180")))
         try:
-            cdef.fn(vc)
+            try:
+                cdef.fn(vc)
+            finally:
+                signal.alarm(0)
+                signal.signal(signal.SIGALRM, old_handler)
+        except TimeoutError:
+            # a library call that does not come back on inputs the harness considers valid: a failed run-time contract
+            res["failures"].append({"obligation": f"{cdef.prop}.{cdef.name}.terminates_within_time_limit",
+                                    "why": "the case did not finish within the per-case time limit", "inputs": dict(vc.inputs)})
+            res["runs"] += 1
+            if inputs is not None:
+                break
+            continue
         except SkipCase:
             if vc.failures:
                 res["failures"].extend(vc.failures)
